@@ -53,6 +53,7 @@ type checkResult struct {
 	bounded    map[string]any
 	notes      []string
 	batterySamples []any
+	closureAdded   []string // functions encoded because they are reachable from the property's entry points
 }
 
 func selectForProperty(id string, obls []*Oblig) []*Oblig {
@@ -106,7 +107,22 @@ func cmdCheck(args []string) int {
 func (V *Verifier) runProperty(spec *propSpec) *checkResult {
 	res := &checkResult{bounded: map[string]any{}}
 	t0 := time.Now()
-	obls := V.encodeFuncs(spec.Funcs)
+	funcs := spec.Funcs
+	if len(spec.SafetyClosure) > 0 {
+		have := map[string]bool{}
+		for _, k := range funcs {
+			have[k] = true
+		}
+		funcs = append([]string(nil), funcs...)
+		for _, k := range V.reachableFromUntrusted(spec.SafetyClosure...) {
+			if !have[k] {
+				have[k] = true
+				funcs = append(funcs, k)
+				res.closureAdded = append(res.closureAdded, k)
+			}
+		}
+	}
+	obls := V.encodeFuncs(funcs)
 	if os.Getenv("BXV_TIMING") != "" {
 		fmt.Fprintf(os.Stderr, "encode: %.1fs\n", time.Since(t0).Seconds())
 	}
@@ -255,9 +271,17 @@ func (V *Verifier) report(spec *propSpec, res *checkResult, tier string, seed in
 		nViol++
 		_ = os.MkdirAll(replayDir, 0o755)
 		path := filepath.Join(replayDir, sanitizeFile(k+"-encode")+".json")
-		writeJSON(path, map[string]any{"property": id, "obligation": k + "#contract:cannot-generate-obligations", "reason": V.encErrs[k].Error(),
-			"explanation": "the contract of this function can no longer be turned into obligations on the current tree (function missing, signature changed, or a construct outside the verified subset): the obligations that were discharged on the unchanged tree are now undecided"})
-		violLines = append(violLines, fmt.Sprintf("VIOLATION property=%s replay=%s obligation=%s no-failing-input-found", id, path, k+"#contract"))
+		m := map[string]any{"property": id, "obligation": k + "#contract:cannot-generate-obligations", "reason": V.encErrs[k].Error(),
+			"explanation": "the contract of this function can no longer be turned into obligations on the current tree (function missing, signature changed, or a construct outside the verified subset): the obligations that were discharged on the unchanged tree are now undecided"}
+		// the real code is still run against the executable oracles: a failing input there is the replayed counterexample
+		cv := violation{Replay: path}
+		V.concretise(spec, &Oblig{Name: k + "#contract", Res: SolveResult{Verdict: Unknown}}, m, replayDir, &cv)
+		writeJSON(path, m)
+		line := fmt.Sprintf("VIOLATION property=%s replay=%s obligation=%s", id, path, k+"#contract")
+		if !cv.Repro {
+			line += " no-failing-input-found"
+		}
+		violLines = append(violLines, line)
 	}
 	for _, o := range failed {
 		// known finding?
@@ -288,6 +312,9 @@ func (V *Verifier) report(spec *propSpec, res *checkResult, tier string, seed in
 	samples := V.sampleObligations(all, failed)
 	samples = append(res.batterySamples, samples...)
 	funcs := append([]string(nil), spec.Funcs...)
+	for _, k := range res.closureAdded {
+		funcs = append(funcs, k+" (reachable from the entry points; safety sweep)")
+	}
 	for _, x := range spec.Extras {
 		if x == "table:typing" {
 			var rn []string
